@@ -6,6 +6,10 @@ usage: python -m vt.harness.c10_impl SPEC.json
 SPEC = {"mode": "enum", "alphabet": [[cp,..],..], "depth": d, "lo": i, "hi": j,      # all index tuples in [lo,hi) base len(alphabet)
         "inp": path, "out": path, "flags": path, "hits": path}
      | {"mode": "file", "inp": path (exists: one text per line, space separated code points), "out":.., "flags":.., "hits":..}
+     | {"mode": "long", "cases": [[[unit code points, n], ...], ...], ...}   # LONG-LEXEME family: a text is the concatenation of
+                                                                            # segments, segment = (unit repeated)[:n]; inp is written
+Texts longer than LONG (4096) are minimised on their run-length form (segments) and reported as "min_rle"/"text_rle"
+instead of a list of code points.
 Files written: inp (enum mode), out (one line per text: "type,start,len;..."), flags (one char per text:
 '1' non-trivial, '0' trivial), hits (JSON lines, oracle violations with a minimised text)."""
 import json
@@ -77,7 +81,128 @@ def minimise(text):
     return cur
 
 
+LONG = 4096
+
+
+def seg_text(segs):
+    """segments [[unit, n], ...] -> text; a segment is (unit repeated)[:n]"""
+    parts = []
+    for unit, n in segs:
+        if n <= 0 or not unit:
+            continue
+        q, r = divmod(n, len(unit))
+        parts.append(unit * q + unit[:r])
+    return "".join(parts)
+
+
+def rle(text):
+    """maximal runs of one character: [[c, n], ...]"""
+    segs = []
+    for c in text:
+        if segs and segs[-1][0] == c:
+            segs[-1][1] += 1
+        else:
+            segs.append([c, 1])
+    return segs
+
+
+def bad_text(t):
+    try:
+        return tiling_violation(t, scan(t)) is not None
+    except Exception:
+        return True
+
+
+def minimise_long(segs, budget=1500):
+    """minimiser for very long texts, on the segment form: (1) drop whole segments, (2) replace a multi-character
+    unit by its first character, (3) per segment, bisect the repeat count down to a boundary n with bad(n) and
+    not bad(n-1); repeat to a fixpoint; (4) when the text got short, finish with the character-level minimiser.
+    Every candidate is judged by the tiling oracle on the real scan() output.  Returns segments."""
+    calls = [0]
+
+    def bad(sg):
+        calls[0] += 1
+        return bad_text(seg_text(sg))
+    cur = [[u, n] for u, n in segs if n > 0 and u]
+    for _round in range(4):
+        changed = False
+        i = 0
+        while i < len(cur) and calls[0] < budget:           # (1)
+            cand = cur[:i] + cur[i + 1:]
+            if bad(cand):
+                cur = cand
+                changed = True
+            else:
+                i += 1
+        for i in range(len(cur)):                           # (2)
+            u, n = cur[i]
+            if len(u) > 1 and calls[0] < budget:
+                cand = cur[:i] + [[u[0], n]] + cur[i + 1:]
+                if bad(cand):
+                    cur = cand
+                    changed = True
+        for i in range(len(cur)):                           # (3)
+            u, n = cur[i]
+            if n <= 1 or calls[0] >= budget:
+                continue
+            lo, hi = 0, n                                   # invariant: bad at hi; lo is a count known not to be bad (0: see (1))
+            if bad(cur[:i] + [[u, 1]] + cur[i + 1:]):
+                hi = 1
+            else:
+                lo = 1
+                while hi - lo > 1 and calls[0] < budget:
+                    mid = (lo + hi) // 2
+                    if bad(cur[:i] + [[u, mid]] + cur[i + 1:]):
+                        hi = mid
+                    else:
+                        lo = mid
+            if hi != n:
+                cur[i] = [u, hi]
+                changed = True
+        if not changed:
+            break
+    t = seg_text(cur)
+    if len(t) <= LONG:
+        return rle(minimise(t))
+    return cur
+
+
+def segs_json(segs):
+    return [[[ord(c) for c in u], n] for u, n in segs]
+
+
+def coarse_segs(text, budget=600):
+    """segment form of an arbitrary long text: delta debugging with large chunks only (bounded number of scans), then
+    runs of one character; a text that still has too many runs becomes one segment"""
+    cur = text
+    chunk = max(1, len(cur) // 2)
+    calls = 0
+    while chunk >= max(1, len(text) // 256) and calls < budget:
+        i = 0
+        while i < len(cur) and calls < budget:
+            cand = cur[:i] + cur[i + chunk:]
+            calls += 1
+            if bad_text(cand):
+                cur = cand
+            else:
+                i += chunk
+        chunk //= 2
+    segs = rle(cur)
+    return segs if len(segs) <= 200 else [[cur, len(cur)]]
+
+
 def texts_of(spec):
+    """yields (text, segments or None)"""
+    if spec["mode"] == "long":
+        for case in spec["cases"]:
+            segs = [["".join(map(chr, u)), n] for u, n in case]
+            yield seg_text(segs), segs
+    else:
+        for t in plain_texts_of(spec):
+            yield t, None
+
+
+def plain_texts_of(spec):
     if spec["mode"] == "enum":
         alpha = ["".join(map(chr, cps)) for cps in spec["alphabet"]]
         n = len(alpha)
@@ -98,7 +223,7 @@ def texts_of(spec):
 
 def main():
     spec = json.load(open(sys.argv[1]))
-    write_inp = spec["mode"] == "enum"
+    write_inp = spec["mode"] in ("enum", "long")
     finp = open(spec["inp"], "w") if write_inp else None
     fout = open(spec["out"], "w")
     fflags = open(spec["flags"], "w")
@@ -106,7 +231,7 @@ def main():
     nhit = 0
     hist = {}
     maxlen = 0
-    for text in texts_of(spec):
+    for text, segs in texts_of(spec):
         if len(text) > maxlen:
             maxlen = len(text)
         if write_inp:
@@ -128,14 +253,32 @@ def main():
         if msg is not None:
             nhit += 1
             if len(hits) < 5:
-                small = minimise(text) if toks is not None else text
+                if len(text) > LONG:
+                    if segs is None:
+                        segs = coarse_segs(text)
+                    msegs = minimise_long(segs)
+                    small = seg_text(msegs)
+                else:
+                    small = minimise(text) if toks is not None else text
                 try:
                     stoks = scan(small)
                     smsg = tiling_violation(small, stoks)
                 except Exception as e:
                     stoks, smsg = None, "scan raised %s" % type(e).__name__
-                hits.append({"text": [ord(c) for c in text], "what": msg, "kind": kind(msg),
-                             "min_text": [ord(c) for c in small], "min_tokens": stoks, "min_what": smsg})
+                h = {"what": msg, "kind": kind(msg), "min_tokens": stoks[:8] if stoks else stoks, "min_what": smsg}
+                if len(text) > LONG:
+                    if seg_text(segs) != text:      # coarse_segs already shrank it
+                        segs = [[text, len(text)]]
+                    h["text_rle"] = segs_json(segs)
+                    h["text"] = None
+                else:
+                    h["text"] = [ord(c) for c in text]
+                if len(small) > LONG:
+                    h["min_rle"] = segs_json(msegs)
+                    h["min_text"] = None
+                else:
+                    h["min_text"] = [ord(c) for c in small]
+                hits.append(h)
     if finp:
         finp.close()
     fout.close()
